@@ -1393,6 +1393,20 @@ _vbi_cache_foreach_page		(vbi_cache *		ca,
 		while (0 == ps->n_subpages
 		       || subno < ps->subno_min
 		       || subno > ps->subno_max) {
+			/* Still on a page number with cached subpages,
+			   but before their range in walking direction
+			   (start position of a search): continue with
+			   the first subpage instead of leaving the page. */
+			if (0 != ps->n_subpages) {
+				if (dir > 0 && subno < ps->subno_min) {
+					subno = ps->subno_min;
+					break;
+				} else if (dir < 0 && subno > ps->subno_max) {
+					subno = ps->subno_max;
+					break;
+				}
+			}
+
 			if (dir < 0) {
 				--pgno;
 				--ps;
